@@ -99,12 +99,11 @@ static htp_status_t htp_connp_res_receiver_send_data(htp_connp_t *connp, int is_
     d.len = connp->out_current_read_offset - connp->out_current_receiver_offset;
     d.is_last = is_last;
 
-    htp_status_t rc = htp_hook_run_all(connp->out_data_receiver_hook, &d);
-    if (rc != HTP_OK) return rc;
-
+    // The data has been handed out, whatever the callbacks make of it: move on first, so
+    // that it is not sent again later, when the caller's chunk may be gone.
     connp->out_current_receiver_offset = connp->out_current_read_offset;
 
-    return HTP_OK;
+    return htp_hook_run_all(connp->out_data_receiver_hook, &d);
 }
 
 /**
